@@ -16,7 +16,7 @@ from ..seams import SimCrash
 
 KINDS = [('sdo', 6), ('sco', 2), ('marking', 1), ('custom', 2), ('unreg', 3)]
 OPS = ['add', 'get', 'all_versions', 'query_all', 'query_type', 'query_id', 'save_load', 'restart', 'load_into', 'rebuild_memory',
-       'load_single']
+       'load_single', 'query_ts']
 FORMS_M = ['single', 'single', 'list', 'bundle_obj', 'bundle_dict']
 FORMS_F = ['single', 'single', 'list', 'bundle_obj', 'bundle_dict', 'text', 'bundle_text']
 
@@ -28,7 +28,7 @@ class C11(Profile):
     tiers = {'quick': 3000, 'thorough': 300000}
     wall_cap = {'quick': 1200, 'thorough': 6 * 3600}
     probes = ['older_version_added_after_newer', 'bundle_form', 'text_form', 'unregistered_dict_versioned',
-              'save_dir_path', 'torn_write_then_restart', 'enospc_mid_list', 'exact_readd', 'read_under_torn_file', 'failed_write_cleaned_up',
+              'save_dir_path', 'torn_write_then_restart', 'enospc_mid_list', 'exact_readd', 'read_under_torn_file', 'failed_write_cleaned_up', 'timestamp_filter_respelled',
               'save_load_compared', 'utf16_save', 'bundlify_store', 'fault_on_read_fired', 'mixed_versions_in_memory',
               'add_resolved_by_observation', 'same_instant_respelled', 'loaded_into_nonempty_store', 'memory_store_constructed_with_data', 'single_object_file_loaded', 'file_vanished_under_reader']
     rule = ('plans: a pool of <=12 ids x <=5 versions (versioned SDO/SRO of 2.0 and 2.1, 2.1 SCOs, marking definitions, registered '
@@ -89,8 +89,11 @@ class C11(Profile):
                     if bigs and op['fault']['call'] == 'write' and rng.random() < 0.7:
                         # land the fault in a later write buffer of a file that needs several
                         op['fault'].update(nth=bigs[0], chunk=rng.choice([1, 1, 2]))
-            elif kind in ('get', 'all_versions', 'query_type', 'query_id'):
+            elif kind in ('get', 'all_versions', 'query_type', 'query_id', 'query_ts'):
                 op.update(store=rng.choice(['M', 'F']), k=rng.randrange(n_ids + 1))
+                if kind == 'query_ts':
+                    op.update(j=rng.randrange(8), cmp=rng.choice(['=', '>=', '<=', '>', '<']), spell=rng.choice(['short', 'min3', 'six']),
+                              prop=rng.choice(['modified', 'modified', 'created']))
                 if faults and op['store'] == 'F' and rng.random() < 0.3:
                     op['fault'] = SW.gen_fault(rng, SW.READ_FAULTS)
             elif kind == 'query_all':
@@ -144,7 +147,7 @@ class C11(Profile):
                     other = 'F' if op['store'] == 'M' else 'M'
                     if not (other == 'M' and op['form'] in ('text', 'bundle_text')):
                         self.op_add(sw, world, dict(op, fault=None), other)
-            elif kind in ('get', 'all_versions', 'query_all', 'query_type', 'query_id'):
+            elif kind in ('get', 'all_versions', 'query_all', 'query_type', 'query_id', 'query_ts'):
                 self.op_read(sw, world, op, kind, op['store'], op.get('k', 0))
             elif kind == 'save_load':
                 self.op_save_load(sw, world, op)
@@ -335,9 +338,23 @@ class C11(Profile):
         else:
             sid = SW.pool_id(sw.pool, k)
             typ = sw.pool[k]['type']
-        self.read_compare(sw, world, store, kind, sid, typ, op.get('ls_key', 0), op.get('fault'))
+        ts = None
+        if kind == 'query_ts':
+            # a timestamp filter in a spelling other than the serialiser's, together with a type filter for a REGISTERED type
+            # (objects kept as plain dicts compare timestamps as text - a listed C12 finding - and the type filter keeps them out)
+            e = sw.pool[k] if k < len(sw.pool) else None
+            if e is None or e['kind'] in ('unreg', 'sco', 'marking') or not e['versions']:
+                world.stat('op_skipped')
+                return
+            us = e['versions'][op['j'] % len(e['versions'])] if op['prop'] == 'modified' else e['created_us']
+            if e['ver'] == '2.0':
+                us = tsparse.trunc_ms(us)
+            txt = {'short': tsparse.fmt(us), 'min3': tsparse.fmt(us, min_digits=3), 'six': tsparse.fmt(us, digits=6)}[op['spell']]
+            ts = (op['prop'], op['cmp'], txt, us)
+            world.probe('timestamp_filter_respelled')
+        self.read_compare(sw, world, store, kind, sid, typ, op.get('ls_key', 0), op.get('fault'), ts=ts)
 
-    def read_compare(self, sw, world, store, kind, sid, typ=None, ls_key=0, fault=None, after_add=False):
+    def read_compare(self, sw, world, store, kind, sid, typ=None, ls_key=0, fault=None, after_add=False, ts=None):
         from stix2 import Filter
         S = sw.store(store)
         model = sw.models[store]
@@ -349,6 +366,8 @@ class C11(Profile):
             fn = lambda: S.query([])
         elif kind == 'query_type':
             fn = lambda: S.query([Filter('type', '=', typ)])
+        elif kind == 'query_ts':
+            fn = lambda: S.query([Filter('type', '=', typ), Filter(ts[0], ts[1], ts[2])])
         else:
             fn = lambda: S.query([Filter('id', '=', sid)])
         nvan = len(sw.disk.vanished)
@@ -404,6 +423,11 @@ class C11(Profile):
                 exp = sw.expected_versions(store, sid)
             elif kind == 'query_all':
                 exp = dict(model)
+            elif kind == 'query_ts':
+                import operator
+                cmpf = {'=': operator.eq, '>=': operator.ge, '<=': operator.le, '>': operator.gt, '<': operator.lt}[ts[1]]
+                exp = {k: v for k, v in model.items() if v.get('type') == typ and isinstance(v.get(ts[0]), dict) and '$ts' in v[ts[0]]
+                       and cmpf(v[ts[0]]['$ts'], ts[3])}
             else:
                 exp = {k: v for k, v in model.items() if v.get('type') == typ}
             sw.expect_eq(kind, store, sw.observe(val), exp)
